@@ -26,6 +26,8 @@ def gen(rng, tier, no, wide=False):
     case = C.gen_with(rng, C.every_rank_has_device, **force)
     if rng.random() < 0.04 and not force:
         case = C.many_ranks(rng, case)
+    # a tenth of the cases is also analysed at one eighth of the time scale with HTA_DISABLE_NS_ROUNDING=1
+    case["params"] = {"frac": rng.random() < 0.1}
     return case
 
 
@@ -47,7 +49,14 @@ def observe(case: Dict[str, Any]) -> Dict[str, Any]:
                     "non_compute_pct": C.num(rec[7])}
         except Exception as e:  # noqa: BLE001
             canon = {"raises": C.exc_name(e)}
-        return {"rows": rows, "canon": canon}
+        twin = None
+        if (case.get("params") or {}).get("frac") and "raises" not in canon:
+            def _call(ta2):
+                d2 = ta2.get_temporal_breakdown(visualize=False)
+                return {int(rec.rank): [C.num(float(rec[1]) * 8), C.num(float(rec[2]) * 8), C.num(float(rec[3]) * 8), C.num(float(rec[4]) * 8),
+                                        C.num(rec[5]), C.num(rec[6]), C.num(rec[7])] for rec in d2.itertuples(index=False)}
+            twin = C.frac_twin(case, _call)
+        return {"rows": rows, "canon": canon, "twin": twin}
     finally:
         htaio.remove_case_dir(files)
 
@@ -132,6 +141,18 @@ def oracle(case, obs) -> List[str]:
     if "raises" in c:
         return []  # reported by spec_check
     out = []
+    tw = obs.get("twin")
+    if tw is not None:
+        # the same trace at one eighth of the time scale: times scale, percentages stay (to the reported two decimals)
+        if "raises" in tw:
+            out.append(f"{tw['raises']}")
+        else:
+            for r, v in c.items():
+                exp = [v["idle"], v["compute"], v["non_compute"], v["kernel_time"]]
+                got = tw.get(r)
+                if got is None or got[:4] != exp or any(a != "nan" and b != "nan" and abs(float(a) - float(b)) > 0.011
+                                                        for a, b in zip(got[4:], [v["idle_pct"], v["compute_pct"], v["non_compute_pct"]])):
+                    out.append(f"rank {r}: at one eighth of the time scale (HTA_DISABLE_NS_ROUNDING=1) the breakdown times 8 is {got}, the integer trace gives {exp + [v['idle_pct'], v['compute_pct'], v['non_compute_pct']]}")
     for r, rows in obs["rows"].items():
         dv = C.dev_rows(rows)
         lo = min(x[1] for x in dv)
